@@ -86,6 +86,21 @@ CLAIMED['C09'] = dict(
         'Correspondence: real get_amplitudes_true (both id spaces), templates/clusters_amplitudes, *_channels, templates_probes, *_waveforms_durations, get_depths on generated dense datasets with ids without spikes at first/middle/last position.',
    note='Float rounding not modelled: generated values make each float operation exact or a single correctly rounded division; rescaled templates / curated-cluster chains compared with relative tolerance 1e-9 (stated, not hidden).',
    tech='Lean 4 theorems over exact rationals (single Mathlib modules for ordered-field lemmas) + differential correspondence against /repo', ref='§5 C09')
+CLAIMED['C05'] = dict(
+   text='Theorems (exact arithmetic, distinct positions): the dense record lists distinct channels with non-increasing amplitudes, first listed and best channel attaining the maximum, column j = (un)whitened waveform on listed channel j, amplitude j = its peak-to-peak, and a channel is listed iff it reaches the threshold fraction, lies on the best channel\'s shank and is among the nearest channels (fully determined when there is no distance tie at the cut); explicit lists are returned as given with their own amplitudes; sparse records list the stored channels minus unused/signal-free ones, ordered and aligned, unwhitened on the kept sub-matrix. '
+        'Correspondence: the Lean executable decides the predicate on every real record of generated dense/sparse datasets (amplitude ties, neighbourhood sizes 1..12, shanks, thresholds, explicit lists, un/whitened); tie-free records are also compared exactly with the model.',
+   note='np.argsort tie order is a relation (the predicate accepts any order among ties); float32 cast / matrix product exact on generated values only.',
+   tech='Lean 4 theorems (stable sort permutation/ordering lemmas, nearest-set characterisation) + correspondence in which Lean decides the spec predicate on the real output', ref='§5 C05')
+CLAIMED['C10'] = dict(
+   text='Theorems over all histories: a reload shows the last saved spike clusters; for every saved metadata field (other than the reserved name info) exactly the last saved mapping (None dropped) whatever was saved before or for other fields, for any value renderer/parser that round-trips; unreadable files and cluster_info contribute nothing; every save leaves all other files untouched (frame). '
+        'Correspondence: real TemplateModel histories (save_spike_clusters, save_metadata with ints/floats/strings/None, foreign valid/empty/ragged/unterminated-quote/cluster_info files, save_spikes_subset_waveforms, close, reload) compared after every reload with the Lean disk model and the abstract last-write-wins state; templates/times unchanged; subset store vs raw data.',
+   note='csv and number parsing are transport (foreign files are parsed with the csv module and cells classified by the harness before reaching the model); after close only reload follows.',
+   tech='Lean 4 refinement of a finite-map disk model to an abstract last-write-wins state, by induction over histories + differential correspondence against /repo', ref='§5 C10')
+CLAIMED['C18'] = dict(
+   text='Theorems: encoder + object hook round-trip every value (nested lists/dicts, arrays of any dtype/rank/size, NumPy scalars) to its canonical form (arrays keep dtype, shape, values; non-complex 1-D arrays of <= 10 items become equal lists); integer top-level keys incl. negative stay integers (proved for the concrete decimal formatter/parser), non-integer-like string keys stay strings; TSV/CSV: read(write(rows)) returns every (field, value) pair of every row with absent fields omitted, requested first column first, for any renderer/parser pair that round-trips. '
+        'Correspondence: real save_json/load_json over all numeric dtypes, layouts, ranks, 9/10/11-item arrays, nested values; write_tsv/read_tsv with both delimiters and hostile strings; two-column tables and parameter files (Python side only).',
+   note='json, csv, base64, number formatting/parsing and the Python parser are transport hypotheses exercised through the real libraries; simple tables and params.py are compared on the Python side only.',
+   tech='Lean 4 theorems (mutual structural recursion over a JSON-like value type; list-level TSV model) + differential correspondence against /repo', ref='§5 C18')
 REASONS = {}
 
 checks = []
